@@ -32,6 +32,22 @@ theorem C07_no_extra_evaluation (ops : Ops) (env : Env) (e : Expr) (v : Val) (P 
   intro p hp hc
   exact List.mem_map.mpr ⟨p, C06_every_recorded_value_is_pythons ops env e v P hwf hid h p hp hc, rfl⟩
 
+/-- the two order differences are real: there is a (pure) condition whose log the re-evaluator records in another
+order than Python evaluates it - which is why the general statement is about permutations -/
+theorem C07_dict_items_are_visited_value_first :
+    ∃ (ops : Ops) (env : Env) (e : Expr) (v : Val) (P : Log), e.wf = true ∧ (allIds e).Nodup ∧
+      pyEval ops env e = .ok (v, P) ∧
+      (visit ops env.builtins (Tbl.ofNames env.names) e).log ≠ P := by
+  -- `{a: b}`: Python evaluates `a`, then `b`; the visitor visits `b`, then `a`
+  refine ⟨Cex.ops0, ⟨[("a", .int 1), ("b", .int 2)], []⟩, .dict 0 [(some (.name 1 "a"), .name 2 "b")],
+    .dict [.int 1] [.int 2], [(1, .int 1), (2, .int 2), (0, .dict [.int 1] [.int 2])], rfl, by decide, rfl, ?_⟩
+  have hv : (visit Cex.ops0 [] (Tbl.ofNames [("a", .int 1), ("b", .int 2)])
+      (.dict 0 [(some (.name 1 "a"), .name 2 "b")])).log = [(2, .int 2), (1, .int 1), (0, .dict [.int 1] [.int 2])] := rfl
+  intro hc
+  rw [hv] at hc
+  have h2 := congrArg (fun l => l.map (·.1)) hc
+  simp at h2
+
 /-- guard-style conditions: with a falsy first operand of `and`, the later operands are not visited at all -/
 theorem C07_and_guard_skips_later_operands (ops : Ops) (bi : List (String × Val)) (tbl : Tbl) (i : Nat)
     (g rest1 : Expr) (rest : List Expr) (gv : Val)
